@@ -389,6 +389,20 @@ func init() {
 			add := func(tpl, nk, cfg, skip, cs int) {
 				js = append(js, &Job{Module: "mcap", Harness: "VC13MapOrder", Params: P("tpl", tpl, "nk", nk, "cfg", cfg, "skip", skip, "cs", cs), TimeoutS: 1200})
 			}
+			iso := func(tpl, cfg, cs, mode int) {
+				js = append(js, &Job{Module: "mcap", Harness: "VC13Isolation", Params: P("tpl", tpl, "cfg", cfg, "cs", cs, "mode", mode), TimeoutS: 1200})
+			}
+			iso(6, 3, 60, 0)
+			iso(5, 2, 1000, 0)
+			iso(6, 3, 1, 1)
+			if tier == "thorough" {
+				for _, tpl := range []int{1, 5, 6, 7} {
+					for _, c := range [][2]int{{3, 1}, {3, 60}, {2, 1000}, {7, 60}} {
+						iso(tpl, c[0], c[1], 0)
+						iso(tpl, c[0], c[1], 1)
+					}
+				}
+			}
 			if tier == "quick" {
 				add(0, 3, 3, 0, 1000)
 				add(0, 2, 2, 0, 1000)
@@ -413,10 +427,10 @@ func init() {
 			return js
 		},
 		bounds: map[string]any{
-			"quick":    map[string]any{"workloads": "5 mixes (channel metadata map / Metadata record / two channels + metadata / schema + three channels over several chunks (thorough) / two schemas + two channels in descending id order / five registered channels of which two carry messages in one chunk)", "map_entries": "2-3 per map, symbolic one-byte keys and values (so equal keys and every key order are included)", "iteration_orders": "every permutation of every range over a map, in the writer and in everything it calls", "options": "chunked (chunk size 1/40/1000) and unchunked, CRC on/off"},
+			"quick":    map[string]any{"workloads": "5 mixes (channel metadata map / Metadata record / two channels + metadata / schema + three channels over several chunks (thorough) / two schemas + two channels in descending id order / five registered channels of which two carry messages in one chunk)", "map_entries": "2-3 per map, symbolic one-byte keys and values (so equal keys and every key order are included)", "iteration_orders": "every permutation of every range over a map, in the writer and in everything it calls", "options": "chunked (chunk size 1/40/1000) and unchunked, CRC on/off", "instance_isolation": "a second Writer instance (other options, other workload) runs from NewWriter to Close while the first is inside its k-th sink Write, k symbolic over every write of the workload; or the API calls of the two instances alternate; both outputs must equal the outputs of the instances run alone (templates T5/T6; thorough T1,T5,T6,T7 x 4 option sets)"},
 			"thorough": map[string]any{"workloads": "as quick x map sizes 2,3 x 5 option sets"},
 		},
-		outside:     append([]string{"independence from GOMAXPROCS, from other goroutines and from concurrent writer/reader instances, and race-freedom: the engine has no scheduler model and the code in scope starts no goroutine (zstd, which does, is outside) - this clause of C13 is NOT decided", "maps with more than 3 entries"}, outsideCommon...),
+		outside:     append([]string{"independence from GOMAXPROCS and from preemptive interleavings of goroutines (data races between instructions): the engine has no scheduler model and the code in scope starts no goroutine (zstd, which does, is outside) - NOT decided; what is decided about concurrent instances is isolation under interleavings at sink-write and API-call granularity (instance_isolation)", "maps with more than 3 entries"}, outsideCommon...),
 		assumptions: commonAssumptions,
 	}
 	checkTable["C14"] = &checkSpec{
